@@ -103,6 +103,10 @@ func vfAnswerBytes(a vfAnswer) []byte {
 		var l [4]byte
 		binary.BigEndian.PutUint32(l[:], 17*1024*1024)
 		return append(l[:], []byte("xx")...)
+	case "oversize-max": // the largest prefix there is (and what a stray UTF-8 text or a BOM looks like to the reader)
+		return []byte{0xff, 0xff, 0xff, 0xff, 'x', 'x'}
+	case "oversize-2g":
+		return []byte{0x80, 0x00, 0x00, 0x00, 'x', 'x'}
 	default: // garbage: a frame whose payload is not a ClientCompatResponse
 		return vfFrame([]byte{0xff, 0xff, 0xff, 0xff, 0x0f, 0x01})
 	}
@@ -475,7 +479,7 @@ func vfC10Check(c vfC10Case) error {
 	if hist.sendRes["postclose"] == nil && c.PostClose {
 		return verifkit.Violf("send-after-close-accepted", "a request offered after closeSend was accepted\n%s", describe())
 	}
-	if c.SlowExit && (fatal == "duplicate" || fatal == "unknown" || fatal == "oversize" || fatal == "garbage" || fatal == "truncated") &&
+	if c.SlowExit && (fatal == "duplicate" || fatal == "unknown" || strings.HasPrefix(fatal, "oversize") || fatal == "garbage" || fatal == "truncated") &&
 		facts["waitErr"] != "<nil>" && facts["isRunningAfterWait"] == "true" {
 		return verifkit.Violf("still-running-after-fault", "the reader gave up on the client (%s: %s) but isRunning() is still true while the process lingers\n%s", fatal, facts["waitErr"], describe())
 	}
@@ -532,7 +536,7 @@ func vfGenC10(t *rapid.T) vfC10Case {
 	c.SlowExit = rapid.IntRange(0, 2).Draw(t, "slowExit") == 0
 	c.PostClose = rapid.IntRange(0, 2).Draw(t, "postClose") == 0
 	if rapid.IntRange(0, 1).Draw(t, "inject") == 0 {
-		kind := rapid.SampledFrom([]string{"duplicate", "unknown", "oversize", "garbage"}).Draw(t, "injectKind")
+		kind := rapid.SampledFrom([]string{"duplicate", "unknown", "oversize", "garbage", "oversize-max", "oversize-2g"}).Draw(t, "injectKind")
 		pos := rapid.IntRange(0, len(c.Answers)).Draw(t, "injectPos")
 		a := vfAnswer{Kind: kind}
 		if kind == "duplicate" {
